@@ -269,7 +269,22 @@ scanLoop:
 		} else if err != nil {
 			return err
 		}
-		pos += countLeadingSpaces(m[0])
+		if eol := countLeadingSpaces(m[0]); eol > 0 {
+			pos += eol
+		} else if pos > 0 {
+			// The "^" of the pattern only says that a search of scanner.Find
+			// started here (behind the previous match, or where the scan
+			// window was refilled).  The marker is at the start of a line
+			// only if the byte in front of it ends a line.
+			var prev [1]byte
+			_, err := fi.R.ReadAt(prev[:], pos-1)
+			if err != nil && err != io.EOF {
+				return err
+			}
+			if prev[0] != '\r' && prev[0] != '\n' {
+				continue scanLoop
+			}
+		}
 
 		switch {
 		case m[2] != "":
